@@ -142,9 +142,35 @@ func parseTrailers(headers []qpack.HeaderField) (http.Header, error) {
 		if field.IsPseudo() {
 			return nil, fmt.Errorf("http3: received pseudo header in trailer: %s", field.Name)
 		}
+		// the rules of section 4.2 of RFC 9114 apply to trailer sections as well
+		if err := validateTrailerField(field); err != nil {
+			return nil, err
+		}
 		h.Add(field.Name, field.Value)
 	}
 	return h, nil
+}
+
+// validateTrailerField applies the checks parseHeaders performs on regular header fields.
+func validateTrailerField(h qpack.HeaderField) error {
+	if strings.ToLower(h.Name) != h.Name {
+		return fmt.Errorf("trailer field is not lower-case: %s", h.Name)
+	}
+	if !httpguts.ValidHeaderFieldValue(h.Value) {
+		return fmt.Errorf("invalid trailer field value for %s: %q", h.Name, h.Value)
+	}
+	if !httpguts.ValidHeaderFieldName(h.Name) {
+		return fmt.Errorf("invalid trailer field name: %q", h.Name)
+	}
+	for _, invalidField := range invalidHeaderFields {
+		if h.Name == invalidField {
+			return fmt.Errorf("invalid trailer field name: %q", h.Name)
+		}
+	}
+	if h.Name == "te" && h.Value != "trailers" {
+		return fmt.Errorf("invalid TE trailer field value: %q", h.Value)
+	}
+	return nil
 }
 
 func requestFromHeaders(headerFields []qpack.HeaderField) (*http.Request, error) {
